@@ -32,7 +32,8 @@ class Exit(Exception):
 
 class SymEval:
     def __init__(self, prog, func, seed=None, rename=None, inline=(), args=None,
-                 depth=0, loop_first=False, self_class=None, inline_props=True):
+                 depth=0, loop_first=False, self_class=None, inline_props=True,
+                 inline_self=False, no_inline=()):
         self.prog = prog
         self.func = func
         self.seed = dict(seed or {})
@@ -41,6 +42,8 @@ class SymEval:
         self.depth = depth
         self.loop_first = loop_first
         self.inline_props = inline_props
+        self.inline_self = inline_self
+        self.no_inline = set(no_inline)
         self.cls = self_class or func.cls
         self.env = {}
         self.path = []  # facts known on the current path (from guarded exits / branches)
@@ -286,7 +289,19 @@ class SymEval:
         return S.unknown("lambda")
 
     def e_ListComp(self, n):
-        return S.unknown("comprehension")
+        if isinstance(n, ast.DictComp) or len(n.generators) != 1:
+            return S.unknown("comprehension")
+        g = n.generators[0]
+        it = self.expr(g.iter)
+        saved = dict(self.env)
+        for nm in target_names(g.target):
+            self.env[nm] = S.sym("@" + nm)
+        try:
+            elt = self.expr(n.elt)
+            conds = [self.expr(c) for c in g.ifs]
+        finally:
+            self.env = saved
+        return S.call("comp", elt, it, *conds)
 
     e_GeneratorExp = e_SetComp = e_DictComp = e_ListComp
 
@@ -348,8 +363,9 @@ class SymEval:
             head, parts = self._dotted_path(f)
             if head == self.selfname and head is not None and len(parts) == 1 and self.cls is not None:
                 m = self.prog.find_method(self.cls, parts[0])
-                if m is not None and (m.qualname in self.inline or m.short in self.inline or
-                                      (m.name in self.inline)):
+                if m is not None and m.name not in self.no_inline and not m.is_abstract and (
+                        m.qualname in self.inline or m.short in self.inline or (m.name in self.inline)
+                        or (self.inline_self and not m.is_property)):
                     r = self._inline(m, [self.env[head]] + args, kwargs, n)
                     if r is not None:
                         return r
@@ -370,7 +386,7 @@ class SymEval:
             if k in params or k in target.kwonly:
                 bind[k] = v
         sub = SymEval(self.prog, target, seed=self.seed, rename=self.rename, inline=self.inline,
-                      args=bind, depth=self.depth + 1,
+                      args=bind, depth=self.depth + 1, inline_self=self.inline_self, no_inline=self.no_inline,
                       self_class=self.cls if (target.cls is not None and self.cls is not None and
                                               target.cls in self.prog.mro(self.cls)) else None)
         for p, d in target.defaults.items():
